@@ -176,3 +176,28 @@ def offsets(pkts):
         out.append(off)
         off += 64 + len(p)
     return out
+
+
+def reformat(rdh, payload):
+    """the same words in the other data format (format 0 <-> 2), header fields updated accordingly"""
+    fmt = rdh[24]
+    slot = 16 if fmt == 0 else 10
+    words = []
+    i = 0
+    while i + 10 <= len(payload):
+        w = payload[i:i + 10]
+        if fmt != 0 and w == b"\xFF" * 10:
+            break
+        words.append(w)
+        i += slot
+    if fmt != 0:
+        # strip trailing 0xFF padding words that are not words
+        n = len(payload) - len(payload.rstrip(b"\xFF"))
+        if n > 9:
+            words = words[:(len(payload) - n) // 10]
+    newfmt = 2 if fmt == 0 else 0
+    p = itsgen.payload(words, newfmt)
+    r = bytearray(rdh)
+    r[24] = newfmt
+    struct.pack_into("<HH", r, 8, 64 + len(p), 64 + len(p))
+    return bytes(r), p
